@@ -338,6 +338,32 @@ def check_get_ops(ctx):
         ok_par = norm.entails(fs_abs, goal)
         ctx.ob(7, "K2", "with require_parents_complete an operator is listed only if all its parents are COMPLETED", ok_par, f, ap,
                detail=f"required: not require_parents_complete or all(parents COMPLETED); facts: {sorted(norm.show(x) for x in fs_abs)}")
+        # completeness: every operator is examined (the scan is never cut short) and one that qualifies is listed
+        hid = g.node_of(lp).id
+        inside = {g.node_of(st).id for b in lp.body for st in ast.walk(b) if isinstance(st, ast.stmt) and id(st) in g.stmt_node}
+        early = None
+        for i_ in inside:
+            for t_, lab in g.nodes[i_].succ:
+                if lab != "exc" and t_ != hid and t_ not in inside and t_ != g.raise_.id:
+                    early = g.nodes[i_]
+        skip_ok_atoms = [("cmp", "notin", state_txt, a) for a in allowed_names] + [norm.mk_cmp("!=", state_txt, state_p)]
+
+        def edge_ok(a_, b_, lab, hid=hid):
+            if a_ == hid and lab == "done":
+                return False
+            if isinstance(lab, tuple) and lab[0] == "cond":
+                at = norm.atoms_true(lab[1])
+                if any(x in at for x in skip_ok_atoms):
+                    return False          # state not requested: rightly skipped
+                ab = _abstract_facts(at, opv)
+                if ("truth", "require_parents_complete", True) in ab and ("truth", "@PARENTS_DONE", False) in ab:
+                    return False          # parents required and not all done: rightly skipped
+            return True
+        skip = g.path_avoiding(hid, {hid, g.exit.id}, {g.node_of(ap).id}, edge_ok=edge_ok)
+        ctx.ob(7, "K3", "get_ops examines every operator and lists each one that qualifies (the scan is not cut short; an operator is skipped only because its state was not "
+               "requested or a required parent is unfinished)", early is None and skip is None, f, early.ast if early is not None and early.ast is not None else ap,
+               construct="get_ops completeness", detail=("the loop is left early at L%d" % early.line) if early is not None else
+               ("every skip is justified" if skip is None else f"unjustified skip: {g.describe_path(skip)}"))
     _check_status_init(ctx)
 
 
@@ -379,6 +405,17 @@ def _check_get_ops_comprehension(ctx, f, g, ret, state_p):
            detail=f"required: {state_txt} in <{'|'.join(sorted(allowed_names))}>; conditions: {sorted(norm.show(x) for x in fs)}")
     fs_abs = _abstract_facts(fs, opv)
     goal = norm._mk("or", [("truth", "require_parents_complete", False), ("truth", "@PARENTS_DONE", True)])
+    # completeness: the filter asks for nothing beyond the two criteria
+    extra = []
+    for c in gen.ifs:
+        for a_ in norm.atoms_true(norm.nnf(c)):
+            ab = _abstract_facts({a_}, opv)
+            okc = any(a_ == ("cmp", "in", state_txt, n_) for n_ in allowed_names) or a_ == norm.mk_cmp("==", state_txt, state_p) \
+                or norm.entails(ab, goal) and norm.entails({goal}, list(ab)[0] if len(ab) == 1 else goal)
+            if not okc:
+                extra.append(norm.show(a_))
+    ctx.ob(7, "K3", "get_ops examines every operator and lists each one that qualifies (the filter asks for nothing beyond the requested state and, if required, finished parents)",
+           not extra, f, ret, construct="get_ops completeness", detail=f"conditions beyond the two criteria: {extra}")
     ctx.ob(7, "K2", "with require_parents_complete an operator is listed only if all its parents are COMPLETED", norm.entails(fs_abs, goal), f, ret,
            detail=f"required: not require_parents_complete or all(parents COMPLETED); conditions: {sorted(norm.show(x) for x in fs_abs)}")
 
@@ -542,7 +579,80 @@ def check_dag(ctx):
            detail=f"registered on every path: {okm}; duplicate asserted absent: {dup}")
 
 
+ITER_CONSUMERS = {"all", "any", "list", "tuple", "set", "frozenset", "sorted", "sum", "map", "filter", "zip", "enumerate", "fromkeys", "max", "min", "iter", "next", "reversed"}
+
+
+def _consumptions(f, name: str):
+    """(node, materialising) for every place that iterates the value of local `name` (a one-shot iterable is empty afterwards);
+    materialising = the statement re-binds `name` to a list/tuple built from it."""
+    out = []
+    for n in own_nodes(f.node):
+        site = None
+        if isinstance(n, (ast.For, ast.AsyncFor)) and norm.is_name(n.iter, name):
+            site = n
+        elif isinstance(n, ast.comprehension) and norm.is_name(n.iter, name):
+            site = parent(n)
+        elif isinstance(n, ast.Call) and norm.call_name(n) in ITER_CONSUMERS and any(norm.is_name(a, name) for a in n.args):
+            site = n
+        elif isinstance(n, ast.Starred) and norm.is_name(n.value, name):
+            site = n
+        if site is None:
+            continue
+        st = site
+        while not isinstance(st, ast.stmt):
+            st = parent(st)
+        mat = isinstance(st, ast.Assign) and len(st.targets) == 1 and norm.is_name(st.targets[0], name) and isinstance(st.value, ast.Call) \
+            and norm.call_name(st.value) in ("list", "tuple") and any(x is site or x is n for x in ast.walk(st.value))
+        out.append((st, site, mat))
+    return out
+
+
+def check_new_operator(ctx):
+    """Pipeline.new_operator: the operator is created for this pipeline and registered in the DAG under exactly the parents the caller
+    named — the parents argument reaches add_node intact (it may be any iterable: iterating it before it is handed on, or before it is
+    materialised, leaves nothing for add_node)."""
+    P = ctx.P
+    f = P.fn(PL, "Pipeline.new_operator")
+    ctx.touch(f)
+    g = cfg_of(f, subst_env=False)
+    pr = f.params()
+    ctx.need(len(pr) >= 2, "Pipeline.new_operator must take (self, parents)")
+    par_p = pr[1]
+    adds = [c for c in calls_named(f, "add_node") if isinstance(c.func, ast.Attribute)]
+    ctx.count_min("add_node call sites in Pipeline.new_operator", len(adds), 1)
+    c = adds[0]
+    opn = c.args[0] if c.args else None
+    env = {}
+    if isinstance(opn, ast.Name):
+        ds = [n for n in own_nodes(f.node) if isinstance(n, ast.Assign) and any(norm.is_name(t, opn.id) for t in n.targets)]
+        if len(ds) == 1 and g.dominates(ds[0], c):
+            env = {opn.id: ds[0].value}
+    okop = opn is not None and norm.U(norm.subst(opn, env)) == f"Operator({pr[0]})" and norm.U(c.func.value) == f"{pr[0]}.values" and len(adds) == 1 \
+        and g.path_avoiding(g.entry.id, {g.exit.id}, {g.node_of(c).id}) is None
+    ctx.ob(10, "K6", "new_operator creates an operator of this pipeline and registers it in this pipeline's DAG on every path", okop, f, c,
+           detail=f"node argument resolves to {norm.U(norm.subst(opn, env)) if opn is not None else None}; receiver {norm.U(c.func.value)}")
+    pa = c.args[1] if len(c.args) >= 2 else norm.kwarg(c, "parents")
+    okpa = pa is not None and norm.is_name(pa, par_p)
+    cons = _consumptions(f, par_p)
+    early = []
+    for st, site, mat in cons:
+        if g.node_of(st).id == g.node_of(c).id:
+            continue
+        if g.path_avoiding(g.node_of(st).id, {g.node_of(c).id}, set()) is None:
+            continue     # not on a way to the registration
+        if mat:
+            # materialised first: fine if no *earlier* consumption lies before it
+            continue
+        # a consumption before the hand-over: harmless only if a materialisation dominates it
+        if not any(m and g.dominates(s2, st) for s2, _x, m in cons):
+            early.append(site)
+    ctx.ob(10, "K6", "the parents named by the caller reach add_node intact (not iterated away before they are handed on or materialised)", okpa and not early, f,
+           early[0] if early else c, construct="add_node(operator, parents)",
+           detail=f"parents argument: {norm.U(pa) if pa is not None else None}; earlier iterations of `{par_p}`: {[norm.U(e)[:60] for e in early]}")
+
+
 def run(ctx):
+    check_new_operator(ctx)
     check_check_transition(ctx)
     c02.check_transition_fn(ctx, 3)
     c02.check_writers(ctx, 4)
